@@ -23,6 +23,7 @@ type Scheduler struct {
 	Cancelled []string
 	RunNow    []string
 	Prefixes  []string
+	Queries   []string // names asked about with JobExists
 }
 
 func (s *Scheduler) exists(name string) bool {
@@ -83,7 +84,19 @@ func (s *Scheduler) RunJob(_ context.Context, name string) error {
 	return nil
 }
 
-func (s *Scheduler) JobExists(_ context.Context, name string) bool { return s.exists(name) }
+func (s *Scheduler) JobExists(_ context.Context, name string) bool {
+	s.Queries = append(s.Queries, name)
+	return s.exists(name)
+}
+
+// Asked reports whether JobExists was called for the name.
+func (s *Scheduler) Asked(name string) bool {
+	r := false
+	for _, q := range s.Queries {
+		r = vnd.Or(r, q == name)
+	}
+	return r
+}
 
 func (s *Scheduler) RunJobIfExists(_ context.Context, name string) {
 	if s.exists(name) {
